@@ -110,7 +110,7 @@ func (s *orRuleSetLoader) keyOrObjectEnd(lex lexeme.LexEvent) {
 	case lexeme.ObjectEnd:
 		s.stateFunc = s.endOfLoading
 		s.inProgress = false
-		s.makeTypeFromRuleSet()
+		s.makeTypeFromRuleSet(lex)
 	default:
 		panic(errors.ErrLoader)
 	}
@@ -174,8 +174,9 @@ func (s *orRuleSetLoader) nodeTypesListConstraint() *constraint.TypesList {
 	return c.(*constraint.TypesList)
 }
 
-// makeTypeFromRuleSet appends new type based on rule-set.
-func (s *orRuleSetLoader) makeTypeFromRuleSet() {
+// makeTypeFromRuleSet appends new type based on rule-set. The lex is the end of
+// the rule-set: it knows where the rule-set begins.
+func (s *orRuleSetLoader) makeTypeFromRuleSet(lex lexeme.LexEvent) {
 	if s.typeRoot.NumberOfConstraints() == 0 {
 		panic(errors.ErrEmptyRuleSet)
 	}
@@ -203,7 +204,8 @@ func (s *orRuleSetLoader) makeTypeFromRuleSet() {
 	CompileBasic(&typ, false)
 	s.checkCompatibilityOfConstraints(declaredType)
 
-	lex := s.node.BasisLexEventOfSchemaForNode()
+	// The place of the rule-set itself, not of the node: the types of one "or"
+	// rule are checked in the order in which they are written.
 	name := s.rootSchema.AddUnnamedType(&typ, lex.File(), lex.Begin())
 
 	c.AddNameWithASTNode(name, s.typeRoot.Type().String(), an)
